@@ -467,9 +467,9 @@ Proof.
   - intros p Hp. apply (all3_nth _ 0 0 0). rewrite Llo, Lhi.
     assert (length p = n).
     { destruct Hp as [<-|Hp]; auto. rewrite Forall_forall in F. apply F. exact Hp. }
-    repeat split; auto. intros j Hj. rewrite Nlo, Nhi by lia.
+    split; [reflexivity|]. split; [auto|]. intros j Hj. rewrite Nlo, Nhi by lia.
     destruct (Hm j Hj) as [A1 _]. destruct (HM j Hj) as [A2 _]. specialize (A1 p Hp). specialize (A2 p Hp). lra.
-  - rewrite Llo. intros j Hj. rewrite Nlo, Nhi by lia.
+  - unfold bdim. cbn [fst]. rewrite Llo. intros j Hj. rewrite Nlo, Nhi by lia.
     destruct (Hm j Hj) as [_ [p1 [I1 E1]]]. destruct (HM j Hj) as [_ [p2 [I2 E2]]]. split.
     + exists p1. split; auto. lra.
     + exists p2. split; auto. lra.
@@ -501,7 +501,10 @@ Lemma pad_nonpositive (lo v : list R) : length v = length lo -> Forall (fun y =>
 Proof.
   revert v. induction lo as [|l lo IH]; intros [|y v]; simpl; try discriminate; auto.
   intros E F. injection E as E. inversion F; subst. destruct (IH v E) as [I1 I2]; auto.
-  rewrite omax_R, Rmax_right by lra. unfold vsub, vadd, vmaxs in *. rewrite I1, I2. split; f_equal; lra.
+  rewrite omax_R, Rmax_right by lra.
+  change (vsub RO (l :: lo) (0 :: vmaxs RO v 0)) with ((l - 0) :: vsub RO lo (vmaxs RO v 0)).
+  change (vadd RO (l :: lo) (0 :: vmaxs RO v 0)) with ((l + 0) :: vadd RO lo (vmaxs RO v 0)).
+  rewrite I1, I2. split; f_equal; lra.
 Qed.
 
 (* pad enlarges the box (never shrinks it) and does nothing for non-positive paddings *)
@@ -511,7 +514,7 @@ Lemma box_pad (b b' : box R) (v : vec R) :
 Proof.
   intros W H. apply pad_vec_value in H as [L ->]. unfold in_box, wf_box, bdim in *. cbn [blo bhi fst snd].
   split; [|split].
-  - unfold vsub, vadd, vmaxs. rewrite !map2_length, !map_length. unfold blo, bhi. lia.
+  - unfold vsub, vadd, vmaxs. rewrite !map2_length, !map_length. unfold blo, bhi in *. lia.
   - intros p. apply pad_coords. exact L.
   - intros F. destruct b as [lo hi]. cbn [blo bhi fst snd] in *.
     destruct (pad_nonpositive lo v L F) as [-> _]. destruct (pad_nonpositive hi v) as [_ ->]; auto. lia.
